@@ -155,10 +155,13 @@ theorem nextAux_para {lines : List Bytes} {p : Paragraph} {lastKey : Bytes} {q :
         · -- field line
           split at h
           · rename_i k v _
-            have := ih (p := ⟨_, insert (Str.trimSpace k) (Str.trimSpace v) p.values⟩)
-              ⟨keysOK_field _ _ hinv.1, fun _ => mem_order_field _ hinv.1⟩ h
-            refine ⟨this.1, this.2.1, ?_, fun _ => ?_⟩ <;>
-              simp only [List.length_cons] <;> omega
+            simp only at h
+            split at h
+            · cases h
+            · have := ih (p := ⟨_, insert (Str.trimSpace k) (Str.trimSpace v) p.values⟩)
+                ⟨keysOK_field _ _ hinv.1, fun _ => mem_order_field _ hinv.1⟩ h
+              refine ⟨this.1, this.2.1, ?_, fun _ => ?_⟩ <;>
+                simp only [List.length_cons] <;> omega
           · cases h
 
 theorem next_para {lines : List Bytes} {q : Paragraph} {rest : List Bytes}
